@@ -1,12 +1,235 @@
 /-
-  CmdDag.lean — driver commands (stub; owned by the group that builds the corresponding model).
+  CmdDag.lean — driver commands of the circuit-DAG / metrics group (C12, C18).
+
+  dag.run ne=1 np=1 nc=1 edits=<edit>,<edit>,…  [qs=<q>,<q>,…]  [full=<k>]
+      edits:  A/<op>             add(op)
+              I/<op>/<edge>+<edge>   insert_at(op, [edges])        (`*` = empty edge list)
+              R/<node>           remove_op(node)
+              P/<node>/<op>      replace_op(node, op)
+              U | D | G          unwrap_nodes() | remove_identity() | group_one_qubit_gates()
+              E/<t>[/<size>]     add_emitter/photonic/classical_register(size)
+              C                  continue on `circuit.copy()`
+      op:     <ClassName>:<qregs .-separated>:<cregs>:<labels>:<wrapped classes>      (`*` = empty)
+      node:   e0_in | p2_out | 17          edge:  <node>><node>><key>
+      qs (aligned with edits, `*` = nothing):  +-joined from  d (depth) r (register_depth) v (validate)
+              h (reg_gate_history of every register) x/<edge> (find_incompatible_edges) l/<label.label> (get_node_by_labels)
+              m (all metrics)  n (all metrics except the effective depth, whose `_max_depth` recursion can be exponential)
+   -> ok errs=<-|class>,… hs=<fnv64 of the canonical state after each edit>,… q=<answers> + the full canonical state
+      after edit `full` (default: the last): nodes= edges= nd= ed= regs= nid=
+  dag.metrics ne= np= nc= ops=<op>,<op>,… [lite=1]   circuit built by `add`; model metrics and op-list specifications
+      (lite: skip the two results that use the un-memoised `_max_depth` recursion)
 -/
 import Driver.Proto
+import GraphiqModel.Model.Metrics
 namespace Graphiq.CmdDag
-open Graphiq Graphiq.Proto
+open Graphiq Graphiq.Proto Graphiq.Dag
+
+/-! ### tokens -/
+
+def emp (s : String) : String := if s = "" then "*" else s
+
+def parseRegType (c : Char) : Option RegType :=
+  if c = 'e' then some .e else if c = 'p' then some .p else if c = 'c' then some .c else none
+
+def parseReg (s : String) : Option Reg :=
+  match s.toList with
+  | c :: rest => do
+    let t ← parseRegType c
+    let i ← (String.ofList rest).toNat?
+    pure ⟨t, i⟩
+  | [] => none
+
+def stripSuffix (s suf : String) : Option String :=
+  if s.endsWith suf then some (String.ofList (s.toList.take (s.length - suf.length))) else none
+
+def parseNode (s : String) : Option NodeId :=
+  match stripSuffix s "_in" with
+  | some r => (parseReg r).map NodeId.inp
+  | none =>
+    match stripSuffix s "_out" with
+    | some r => (parseReg r).map NodeId.out
+    | none => s.toNat?.map NodeId.op
+
+def parseEdge (s : String) : Option Edge :=
+  match splitChar '>' s with
+  | [u, v, k] => do
+    let u ← parseNode u
+    let v ← parseNode v
+    let k ← parseReg k
+    pure ⟨u, v, k⟩
+  | _ => none
+
+def starList (sep : Char) (s : String) : List String :=
+  if s = "*" ∨ s = "" then [] else splitChar sep s
+
+def parseOp (s : String) : Option Op :=
+  match splitChar ':' s with
+  | [k, q, c, l, w] => do
+    let k ← Kind.ofName k
+    let q ← (starList '.' q).mapM parseReg
+    let c ← (starList '.' c).mapM String.toNat?
+    let w ← (starList '.' w).mapM Kind.ofName
+    pure ⟨k, q, c, starList '.' l, w⟩
+  | _ => none
+
+def showOp (op : Op) : String :=
+  op.kind.name ++ ":" ++ emp (String.intercalate "." (op.qregs.map Reg.str)) ++ ":" ++
+    emp (String.intercalate "." (op.cregs.map toString)) ++ ":" ++ emp (String.intercalate "." op.labels) ++ ":" ++
+    emp (String.intercalate "." (op.inner.map Kind.name))
+
+inductive Edit where
+  | add (op : Op) | ins (op : Op) (es : List Edge) | rm (n : NodeId) | rep (n : NodeId) (op : Op)
+  | unwrap | rmid | group | reg (t : RegType) (size : Nat) | copy
+
+def parseEdit (s : String) : Option Edit :=
+  match splitChar '/' s with
+  | ["A", op] => (parseOp op).map Edit.add
+  | ["I", op, es] => do
+    let op ← parseOp op
+    let es ← (starList '+' es).mapM parseEdge
+    pure (Edit.ins op es)
+  | ["R", n] => (parseNode n).map Edit.rm
+  | ["P", n, op] => do
+    let n ← parseNode n
+    let op ← parseOp op
+    pure (Edit.rep n op)
+  | ["U"] => some .unwrap
+  | ["D"] => some .rmid
+  | ["G"] => some .group
+  | ["C"] => some .copy
+  | ["E", t] => (t.toList.head?.bind parseRegType).map fun t => Edit.reg t 1
+  | ["E", t, sz] => do
+    let t ← t.toList.head?.bind parseRegType
+    let sz ← sz.toNat?
+    pure (Edit.reg t sz)
+  | _ => none
+
+def applyEdit (c : Dag) : Edit → Dag.Res
+  | .add op => c.add op
+  | .ins op es => c.insertAt op es
+  | .rm n => c.removeOp n
+  | .rep n op => c.replaceOp n op
+  | .unwrap => c.unwrapNodes
+  | .rmid => c.removeIdentity
+  | .group => c.groupOneQubitGates
+  | .reg t sz => c.addRegister t sz
+  | .copy => (c, none)   -- `circuit = circuit.copy()` (deep copy): the pure model is its own copy
+
+/-! ### canonical state -/
+
+def sortStrs (l : List String) : List String := l.mergeSort (fun a b => a ≤ b)
+
+def canonNodes (c : Dag) : String :=
+  emp (String.intercalate ";" (sortStrs (c.nodes.map fun p => p.1.str ++ "~" ++ showOp p.2)))
+
+def canonEdges (c : Dag) : String := emp (String.intercalate "," (sortStrs (c.edges.map Edge.str)))
+
+def canonNodeDict (c : Dag) : String :=
+  emp (String.intercalate ";" (sortStrs (c.nodeDict.map fun kv =>
+    kv.1 ++ "~" ++ emp (String.intercalate "," (sortStrs (kv.2.map NodeId.str))))))
+
+def canonEdgeDict (c : Dag) : String :=
+  emp (String.intercalate ";" (sortStrs (c.edgeDict.map fun kv =>
+    kv.1.str ++ "~" ++ emp (String.intercalate "," (sortStrs (kv.2.map Edge.str))))))
+
+def canonRegs (c : Dag) : String := s!"{c.nE},{c.nP},{c.nC}"
+
+def canonState (c : Dag) : String :=
+  canonNodes c ++ "|" ++ canonEdges c ++ "|" ++ canonNodeDict c ++ "|" ++ canonEdgeDict c ++ "|" ++ canonRegs c ++ "|" ++
+    toString c.nodeId
+
+/-- FNV-1a, 64 bit, over the UTF-8 bytes -/
+def fnv64 (s : String) : UInt64 :=
+  s.toUTF8.foldl (fun h b => (h ^^^ b.toUInt64) * 1099511628211) 14695981039346656037
+
+def fullState (c : Dag) : String :=
+  s!"nodes={canonNodes c} edges={canonEdges c} nd={canonNodeDict c} ed={canonEdgeDict c} regs={canonRegs c} nid={c.nodeId}"
+
+/-! ### queries -/
+
+def showErr (e : DErr) : String := "!" ++ e.str
+
+def showIntsDot (l : List Int) : String := emp (String.intercalate "." (l.map toString))
+
+def exceptStr {α} (f : α → String) : Except DErr α → String
+  | .ok a => f a
+  | .error e => showErr e
+
+def allRegs (c : Dag) : List Reg :=
+  (List.range c.nE).map (Reg.mk .e) ++ (List.range c.nP).map (Reg.mk .p) ++ (List.range c.nC).map (Reg.mk .c)
+
+def metricsStr (c : Dag) (withEff : Bool := true) : String :=
+  s!"depth.{Metrics.circuitDepth c}/emit.{Metrics.emitterCount c}/cnot.{Metrics.cnotCount c}" ++
+  s!"/unit.{exceptStr toString (Metrics.unitaryCount c)}/meas.{Metrics.measureCount c}" ++
+  s!"/med.{exceptStr toString (Metrics.maxEmitDepth c)}/reset.{exceptStr toString (Metrics.maxEmitResetDepth c)}" ++
+  (if withEff then s!"/eff.{exceptStr toString (Metrics.maxEmitEffDepth c)}" else "")
+
+def answer (c : Dag) (q : String) : String :=
+  match splitChar '/' q with
+  | ["d"] => "d:" ++ (if c.isAcyclicB then toString c.depth else "cyc")
+  | ["r"] => "r:" ++ exceptStr (fun (t : List Int × List Int × List Int) =>
+      showIntsDot t.1 ++ "/" ++ showIntsDot t.2.1 ++ "/" ++ showIntsDot t.2.2) c.registerDepth
+  | ["v"] => "v:" ++ (match c.validate with | none => "ok" | some e => e)
+  | ["h"] => "h:" ++ emp (String.intercalate "/" ((allRegs c).map fun r =>
+      r.str ++ "~" ++ exceptStr (fun l => String.intercalate "." (l.map NodeId.str)) (c.regGateHistory r)))
+  | ["x", e] =>
+    match parseEdge e with
+    | none => "x:?"
+    | some e => "x:" ++ exceptStr (fun l => emp (String.intercalate "." (sortStrs (l.map Edge.str)))) (c.findIncompatibleEdges e)
+  | ["l", ls] => "l:" ++ emp (String.intercalate "." (sortStrs ((c.getNodeByLabels (starList '.' ls)).map NodeId.str)))
+  | ["e", ls] => "e:" ++ emp (String.intercalate "." (sortStrs ((c.getNodeExcludeLabels (starList '.' ls)).map NodeId.str)))
+  | ["m"] => "m:" ++ metricsStr c
+  | ["n"] => "n:" ++ metricsStr c false
+  | _ => "?"
+
+def answers (c : Dag) (qs : String) : String :=
+  if qs = "*" ∨ qs = "" then "*" else String.intercalate "+" ((splitChar '+' qs).map (answer c))
+
+/-! ### commands -/
+
+def runEdits (c0 : Dag) (edits : List String) (qs : List String) (full : Nat) : String :=
+  let rec go (c : Dag) (k : Nat) (es qs : List String) (errs hs ans : List String) (keep : Dag) : String :=
+    match es with
+    | [] =>
+      s!"ok h0={fnv64 (canonState c0)} errs={emp (String.intercalate "," errs.reverse)} hs={emp (String.intercalate "," hs.reverse)} " ++
+      s!"q={emp (String.intercalate "," ans.reverse)} {fullState keep}"
+    | e :: rest =>
+      match parseEdit e with
+      | none => s!"err parse edit={k}"
+      | some ed =>
+        let (c1, err) := applyEdit c ed
+        let q := qs.headD "*"
+        go c1 (k + 1) rest qs.tail ((match err with | none => "-" | some x => x.str) :: errs)
+          (toString (fnv64 (canonState c1)) :: hs) (answers c1 q :: ans) (if k ≤ full then c1 else keep)
+  go c0 0 edits qs [] [] [] c0
+
+def specStr (ne : Nat) (seq : List Op) (c : Dag) : String :=
+  let regd := String.intercalate "/" ([RegType.e, .p, .c].map fun t =>
+    showIntsDot ((List.range (c.regs t)).map fun i => ((Metrics.Spec.regDepth seq ⟨t, i⟩ : Nat) : Int)))
+  s!"sdepth={Metrics.Spec.depth seq} sregd={regd} semit={Metrics.Spec.emitterCount ne seq} scnot={Metrics.Spec.cnotCount seq} " ++
+  s!"sunit={Metrics.Spec.unitaryCount seq} smeas={Metrics.Spec.measureCount seq} " ++
+  s!"smed={exceptStr toString (Metrics.Spec.maxEmitDepth c.nE seq)} sreset={exceptStr toString (Metrics.Spec.maxEmitResetDepth c.nE seq)} " ++
+  s!"seff={exceptStr toString (Metrics.Spec.maxEmitEffDepth c.nE seq)}"
 
 def dispatch (cmd : String) (a : Args) : Option String :=
   match cmd with
+  | "dag.run" =>
+    let c0 := Dag.init (getNat a "ne") (getNat a "np") (getNat a "nc")
+    let edits := starList ',' (get a "edits")
+    let qs := starList ',' (get a "qs")
+    let full := if has a "full" then getNat a "full" else edits.length
+    some (runEdits c0 edits qs full)
+  | "dag.metrics" =>
+    match (starList ',' (get a "ops")).mapM parseOp with
+    | none => some "err parse"
+    | some seq =>
+      match Metrics.build (getNat a "ne") (getNat a "np") (getNat a "nc") seq with
+      | (_, some e) => some s!"err {e.str}"
+      | (c, none) =>
+        let lite := has a "lite"
+        let rd := if lite then "skipped" else exceptStr (fun (t : List Int × List Int × List Int) =>
+          showIntsDot t.1 ++ "/" ++ showIntsDot t.2.1 ++ "/" ++ showIntsDot t.2.2) c.registerDepth
+        some s!"ok m={metricsStr c (!lite)} regd={rd} {specStr (getNat a "ne") seq c} h={fnv64 (canonState c)}"
   | _ => none
 
 end Graphiq.CmdDag
